@@ -70,6 +70,8 @@ Published == {
   [f |-> "SHA-384", m |-> "abc", h |-> "cb00753f45a35e8bb5a03d699ac65007272c32ab0eded1631a8b605a43ff5bed8086072ba1e7cc2358baeca134c825a7"],
   [f |-> "SHA-512", m |-> "", h |-> "cf83e1357eefb8bdf1542850d66d8007d620e4050b5715dc83f4a921d36ce9ce47d0d13c5d85f2b0ff8318d2877eec2f63b931bd47417a81a538327af927da3e"],
   [f |-> "SHA-512", m |-> "abc", h |-> "ddaf35a193617abacc417349ae20413112e6fa4e89a97ea20a9eeee64b55d39a2192992a274fc1a836ba3c23a3feebbd454d4423643ce80e2a9ac94fa54ca49f"],
+  [f |-> "SHA-512/224", m |-> "", h |-> "6ed0dd02806fa89e25de060c19d3ac86cabb87d6a0ddd05c333b84f4"], [f |-> "SHA-512/224", m |-> "abc", h |-> "4634270f707b6a54daae7530460842e20e37ed265ceee9a43e8924aa"],
+  [f |-> "SHA-512/256", m |-> "", h |-> "c672b8d1ef56ed28ab87c3622c5114069bdd3ad7b8f9737498d0c01ecef0967a"], [f |-> "SHA-512/256", m |-> "abc", h |-> "53048e2681941ef99b2e29b76b4c7dabe4c2d0c634fc6d46e0e2f13107e7af23"],
   [f |-> "SHA3-224", m |-> "", h |-> "6b4e03423667dbb73b6e15454f0eb1abd4597f9a1b078e3f5b5a6bc7"],
   [f |-> "SHA3-256", m |-> "", h |-> "a7ffc6f8bf1ed76651c14756a061d662f580ff4de43b49fa82d80a4b80f8434a"],
   [f |-> "SHA3-256", m |-> "abc", h |-> "3a985da74fe225b2045c172d6bd390bd855f086e3e9d525b46bfe24511431532"],
@@ -120,7 +122,7 @@ ShaBlockEnd == /\ l <= Len(Rec) /\ IsSha(Ev) /\ reg.b <= NBlocks(HA, HMsg) /\ re
                /\ LET h2 == AddWords(reg.h, reg.v) IN reg' = [h |-> h2, v |-> h2, w |-> <<>>, b |-> reg.b + 1, t |-> 0, m |-> BlockWords(HA, HMsg, reg.b + 1)]
                /\ k' = k + 1 /\ UNCHANGED <<l, viols, cnt>>
 ShaJudge == /\ l <= Len(Rec) /\ IsSha(Ev) /\ reg.b > NBlocks(HA, HMsg)
-            /\ LET want == DigestHex(HA, reg.h)
+            /\ LET want == DigestHex(HA, reg.h, Ev.inp.f)
                    \* a published record carries the vector as text and code points; the text must be the spec's own entry
                    ok == IF Ev.inp.published THEN [f |-> Ev.inp.f, m |-> Ev.inp.x.s, h |-> Ev.inp.want.s] \in Published /\ Ev.inp.want.u = want
                          ELSE OkStr(Ev.r.out) /\ Ev.r.out.v.u = want
